@@ -34,7 +34,13 @@ func (s *PreprocessSchema[F, T]) process(ctx *p.SchemaCtx) {
 }
 
 func (s *PreprocessSchema[F, T]) validate(ctx *p.SchemaCtx) {
-	out, err := s.fn(ctx.ValPtr.(F), ctx)
+	v, ok := ctx.ValPtr.(F)
+	if !ok {
+		// in Validate the function is handed the pointer to the value: an input type that cannot take it is a type mismatch, as in Parse
+		ctx.AddIssue(ctx.IssueFromCoerce(fmt.Errorf("preprocess expected %T but got %T", v, ctx.ValPtr)))
+		return
+	}
+	out, err := s.fn(v, ctx)
 	if err != nil {
 		ctx.AddIssue(ctx.IssueFromUnknownError(err))
 		return
